@@ -115,6 +115,7 @@ func runC15(ctx *Ctx) {
 	}
 	ctx.Cov.Sample(map[string]any{"text": "  foo\n    bar\n", "description": string(mustDescr([]byte("  foo\n    bar\n")))})
 	c15EndToEnd(ctx, r)
+	c15PastedDescriptions(ctx)
 	c15AnnotationSpelling(ctx, r)
 }
 
@@ -440,4 +441,78 @@ func pathIdx(v *OVal, keys ...string) *OVal {
 		cur = cur.Get(k)
 	}
 	return cur
+}
+
+// c15PastedDescriptions: ONE Description text that reaches several places — inside a macro pasted into two or three
+// methods (bare and in parentheses, LF / CRLF / CR) — must have its normal form in every one of them, and processing the
+// very same input bytes a second time must give the very same catalog (a normalisation never consumes its source).
+func c15PastedDescriptions(ctx *Ctx) {
+	texts := []string{"one line", "First line.\n  Indented more.\nThe last line.", "two\nlines", "a\n\n  after a blank line\nb", "x # y\n(z)"}
+	cases := 0
+	for _, t := range texts {
+		for _, paren := range []bool{false, true} {
+			for _, nl := range []string{"\n", "\r\n", "\r"} {
+				for n := 1; n <= 3; n++ {
+					for _, ind := range []string{"    ", "\t\t", "      "} {
+						var body strings.Builder
+						for _, l := range strings.Split(t, "\n") {
+							if strings.TrimSpace(l) == "" {
+								body.WriteString("\n")
+							} else {
+								body.WriteString(ind + l + "\n")
+							}
+						}
+						var doc strings.Builder
+						doc.WriteString("JSIGHT 0.3\nMACRO @d\n(\n  Description\n")
+						if paren {
+							doc.WriteString("  (\n" + body.String() + "  )\n")
+						} else {
+							doc.WriteString(body.String())
+						}
+						doc.WriteString(")\n")
+						paths := []string{"/cat", "/dog", "/fox"}[:n]
+						for _, p := range paths {
+							doc.WriteString("GET " + p + "\n  PASTE @d\n  200 any\n")
+						}
+						src := strings.ReplaceAll(doc.String(), "\n", nl)
+						input := []byte(src)
+						res := RunProject(SingleFile(input), false)
+						cases++
+						ctx.Cov.Count(input, n >= 2 && strings.Contains(t, "\n"))
+						ctx.Cov.Hit(fmt.Sprintf("one description pasted into %d methods", n))
+						if res.Panic != "" {
+							continue
+						}
+						in := projectInput(SingleFile([]byte(src)))
+						in["op"] = "doc"
+						if !res.Accepted() {
+							ctx.Violate(Violation{Kind: "wrong-output", Site: "description", What: "a well-formed document with a pasted description is rejected: " + res.Verdict(), Input: in, Signature: "descr-doc-rejected"})
+							continue
+						}
+						if string(input) != src {
+							ctx.Violate(Violation{Kind: "wrong-output", Site: "description", What: "the bytes of the input file were changed while it was processed: " + firstDiff([]byte(src), input), Input: in, Signature: "descr-input-changed"})
+							continue
+						}
+						od, _, err := ParseOJSON(res.JSON)
+						if err != nil {
+							continue
+						}
+						want, _ := specDescription([]byte(strings.ReplaceAll(body.String(), "\n", nl)))
+						for _, p := range paths {
+							if got := od.Path("interactions", "http GET "+p, "description").Str(); got != string(want) {
+								ctx.Violate(Violation{Kind: "wrong-output", Site: "description", What: fmt.Sprintf("one description pasted into %d methods: under GET %s it is %q, the normal form of the text is %q", n, p, got, want),
+									Input: in, Observed: got, Expected: string(want), Signature: "descr-value"})
+								break
+							}
+						}
+						again := RunProject(SingleFile(input), false)
+						if again.Panic == "" && (again.Accepted() != res.Accepted() || !bytes.Equal(again.JSON, res.JSON)) {
+							ctx.Violate(Violation{Kind: "wrong-output", Site: "description", What: "processing the same input bytes a second time gives another result: " + firstDiff(res.JSON, again.JSON), Input: in, Signature: "descr-second-reading"})
+						}
+					}
+				}
+			}
+		}
+	}
+	ctx.Cov.Component("one Description pasted into 1-3 methods (bare / parenthesised, LF / CRLF / CR): normal form everywhere, input bytes untouched, second reading equal", cases, len(ctx.Violations), "")
 }
